@@ -54,6 +54,22 @@ package queues
 //@   ghost after store readChunk: q.$inQ[old(q.readChunk)] := false
 //@   assert [instant@C17] after call sync/atomic.Uint64.Add: q.readCount <= q.writeCount
 
+// Values: a snapshot of exactly the pending items, oldest first (what Purge of the bound queue closes, job by job).
+//@ func Queue.Values
+//@   props C10 C04
+//@   requires @RI_Queue(q) && q.writeCount - q.readCount <= MaxInt
+//@   modifies $alloc
+//@   ensures [all]   len(result) == q.writeCount - q.readCount
+//@   ensures [items] forall k int :: 0 <= k && k < len(result) ==> result[k] == $box(T, q.$lg[q.readCount + k])
+//@   loop 1: invariant [fresh] $fresh(arr(values))
+//@   loop 1: invariant [chain] chunk == nil || q.$inQ[chunk]
+//@   loop 1: invariant [count] len(values) == (chunk == nil ? q.writeCount : q.$base[chunk] + chunk.NextReadIndex) - q.readCount
+//@   loop 1: invariant [items] forall k int :: 0 <= k && k < len(values) ==> values[k] == $box(T, q.$lg[q.readCount + k])
+//@   loop 2: invariant [fresh] $fresh(arr(values))
+//@   loop 2: invariant [chain] chunk != nil && q.$inQ[chunk] && chunk.NextReadIndex <= i && i <= chunk.NextWriteIndex
+//@   loop 2: invariant [count] len(values) == q.$base[chunk] + i - q.readCount
+//@   loop 2: invariant [items] forall k int :: 0 <= k && k < len(values) ==> values[k] == $box(T, q.$lg[q.readCount + k])
+
 //@ func Queue.Purge
 //@   props C04 C10 C17
 //@   modifies $alloc, q.readChunk, q.writeChunk, q.readCount, q.writeCount, q.$lg, q.$base, q.$inQ,
@@ -148,6 +164,17 @@ package queues
 //@      && (forall e *enqItem {q.internal.$mem[e]} :: q.internal.$mem[e] ==> $alloc(e) && e.Index < q.insertionCount)
 //@      && (forall a *enqItem, b *enqItem {q.internal.$mem[a], q.internal.$mem[b]} :: q.internal.$mem[a] && q.internal.$mem[b] && a.Index == b.Index ==> a == b)
 //@ assumption: fewer than 2^61 entries are pending in one PriorityQueue and fewer than 2^63-1 are ever enqueued (insertionCount does not overflow)
+
+// Values: a snapshot of exactly the pending values, in heap-array order (what Purge of the bound queue closes, job by job).
+//@ func PriorityQueue.Values
+//@   props C10
+//@   requires RI_PQ(q)
+//@   modifies $alloc
+//@   ensures [all]   len(result) == len(q.internal.items)
+//@   ensures [items] forall k int :: 0 <= k && k < len(result) ==> result[k] == $box(T, q.internal.items[k].Value)
+//@   loop 1: invariant [fresh] $fresh(arr(values))
+//@   loop 1: invariant [count] 0 <= rangeindex + 1 && rangeindex + 1 <= len($ranged) && len(values) == rangeindex + 1 && len($ranged) == len(q.internal.items)
+//@   loop 1: invariant [items] forall k int :: 0 <= k && k < len(values) ==> values[k] == $box(T, q.internal.items[k].Value)
 
 //@ func NewPriorityQueue
 //@   props C04 C17
